@@ -16,23 +16,23 @@ type envVar struct {
 
 // Env is the evaluation environment of a contract expression.
 type Env struct {
-	fc      *FnCtx
-	st      *State // current heap
-	old     *State // heap for old(...)
-	oldVars map[string]envVar
-	vars    map[string]envVar
-	cells   func(name string) (envVar, bool) // locals by source name (loop/guard envs)
-	pkg     *types.Package
-	results []envVar
-	resNames []string
-	loop    *loopInfo
-	con     *Contract
+	fc         *FnCtx
+	st         *State // current heap
+	old        *State // heap for old(...)
+	oldVars    map[string]envVar
+	vars       map[string]envVar
+	cells      func(name string) (envVar, bool) // locals by source name (loop/guard envs)
+	pkg        *types.Package
+	results    []envVar
+	resNames   []string
+	loop       *loopInfo
+	con        *Contract
 	calleeFn   *ssa.Function
 	finalCache map[string]envVar
-	cst        *State // state whose local cells are current (differs from st inside old())
+	cst        *State                // state whose local cells are current (differs from st inside old())
 	freeBind   map[string]Val        // call-site env of a closure: captured variables by name
 	freeType   map[string]types.Type // their (pointer) types
-	oldEnv     *Env   // step clauses: old(E) is E evaluated in this environment (head of the iteration)
+	oldEnv     *Env                  // step clauses: old(E) is E evaluated in this environment (head of the iteration)
 }
 
 var nilType = types.Typ[types.UntypedNil]
